@@ -5,8 +5,19 @@ use super::hostname::lex_hostname;
 use crate::TokenKind;
 
 pub fn lex_email_address(source: &[char]) -> Option<FoundToken> {
+    // An address cannot span lines, so only the current line is searched. (Searching the whole
+    // remaining text made an address depend on any '@' in later paragraphs.)
+    let line_len = source
+        .iter()
+        .position(|c| *c == '\n')
+        .unwrap_or(source.len());
+
     // Location of the @ sign
-    let (at_loc, _) = source.iter().enumerate().rev().find(|(_, c)| **c == '@')?;
+    let (at_loc, _) = source[..line_len]
+        .iter()
+        .enumerate()
+        .rev()
+        .find(|(_, c)| **c == '@')?;
 
     let local_part = &source[0..at_loc];
 
